@@ -459,7 +459,7 @@ class Main(Suite):
     name = "main"
     go_cmd = "c37"
     coq_imports = "From GoGit Require Import Model.RevList."
-    quick_n = 420
+    quick_n = 300
     thorough_n = 3000
     coq_chunk = 150
 
